@@ -62,6 +62,7 @@ def key_of(v):
 def main(tier, seed):
     from framework import Runner, Query
     R = Runner('C03', tier, seed); R.setup()
+    R.blocks = models_str.STD_BLOCKS if tier == 'quick' else None       # quick: names over Latin, CJK, fullwidth and pictograph blocks; thorough: all of Unicode
     quick = tier == 'quick'
     c01.load_keywords(R)
     R.assumptions += ['strings = token layouts of the value shapes of checks/shapes.py plus the four derived copulas, with no spaces and with one space at every boundary; names 1 symbolic well-formed char',
@@ -75,7 +76,6 @@ def main(tier, seed):
         for nm, sp in shapes:
             if quick and fmt == 'han':
                 if nm.startswith(('sent/', 'task/')) and not c01.hash_pick(nm, 3): continue
-                sp = c01.subst_names_partial(sp)       # quick/Han: only the first name symbolic (see c01)
             for p in (['none'] if (quick and not nm.startswith('derived/')) else ['none', ('all', 1)]):
                 plist.append(dict(fmt=fmt, name=nm, spec=sp, pattern=p))
         R.run_query(Query('pipelines/' + fmt, 'c03', 'path', plist, '%d shapes (30 constructors, 4 derived copulas, nestings, sentences, tasks)' % len(shapes)), confirm, key_of)
